@@ -57,6 +57,7 @@ UNITS = {
     'DESCDISPATCH': dict(template='descdispatch.rs', rlimit=30),
     'WIRELAYOUT': dict(template='wirelayout.rs', rlimit=30),
     'ERRCOND': dict(template='errcond.rs', rlimit=30),
+    'LINKEXCH': dict(template='linkexch.rs', rlimit=30),
 }
 
 VARW = 'PROVED for every value (units SERSTR + READERS): strings, symbols and binaries of ANY length and content, outside and inside arrays -- the serializer writes a valid str8/str32, sym8/sym32, vbin8/vbin32 encoding whose size field counts octets ([C05.*.encoding], [C05.*.array-element]); the decoder reads both width variants by the AMQP layout and accepts every one of them from a reliable reader ([C05.*.decoding], [C05.*.every-variant-accepted]); lemma_var_round_trip joins the two: decode(encode(x) ++ rest) == x, consuming exactly the encoding; serialized_size agrees with the octets written ([C20.size.*]); compound headers are decoded to the body length and count the layout defines ([C05.compound.header-decoding])'
@@ -260,13 +261,13 @@ PROPS = {
             'slab::Slab is modelled as a partial map whose vacant key is unoccupied (trusted stand-in)',
             'concurrent attaches are serialised by the session engine (not verified)']),
     'C13': dict(
-        units=['SESSION', 'LINK', 'SESSENG', 'LINKDETACH', 'SENDSPLIT', 'RECVLOOP', 'LINKATTACH', 'LINKFLOW', 'ACCSESS', 'HANDLES', 'WIRING', 'ACCLINK', 'LINKAPI', 'CONN', 'ACCDELEG', 'TXNDELEG', 'LCONNDELEG', 'SESSWIRING', 'CONNWIRING', 'CONVERSIONS', 'WIRELAYOUT', 'ERRCOND'],
+        units=['SESSION', 'LINK', 'SESSENG', 'LINKDETACH', 'SENDSPLIT', 'RECVLOOP', 'LINKATTACH', 'LINKFLOW', 'ACCSESS', 'HANDLES', 'WIRING', 'ACCLINK', 'LINKAPI', 'CONN', 'ACCDELEG', 'TXNDELEG', 'LCONNDELEG', 'SESSWIRING', 'CONNWIRING', 'CONVERSIONS', 'WIRELAYOUT', 'ERRCOND', 'LINKEXCH'],
         lemmas={'SESSENG': ['lemma_ext_trans']}, kani=[], level='proof', title='Session and link lifecycles',
         assumptions=[ASYNC, ENGINE,
             '"returns only after the peer\'s answer" is decided as a safety clause (detach / close / end_session / wait_for_remote_end return Ok only once the peer\'s detach / End has been taken from the incoming channel; units LINKDETACH, SESSENG); "answered no later than the next operation" and "within bounded time" are liveness statements and are not decided',
             'Drop impls racing with the engine are not decided']),
     'C14': dict(
-        units=['CONNENG', 'SESSENG', 'LINK', 'LINKFLOW', 'SENDSPLIT', 'RECVLOOP', 'DISPOSER', 'HANDLES', 'DELIVFUT', 'WIRING', 'ACCLINK', 'CONN', 'ACCDELEG', 'TXNDELEG', 'LCONNDELEG', 'SESSWIRING', 'LINKAPI', 'SESSION', 'CONNWIRING', 'ERRCONV', 'WIRELAYOUT', 'ERRCOND'], kani=[], level='proof',
+        units=['CONNENG', 'SESSENG', 'LINK', 'LINKFLOW', 'SENDSPLIT', 'RECVLOOP', 'DISPOSER', 'HANDLES', 'DELIVFUT', 'WIRING', 'ACCLINK', 'CONN', 'ACCDELEG', 'TXNDELEG', 'LCONNDELEG', 'SESSWIRING', 'LINKAPI', 'SESSION', 'CONNWIRING', 'ERRCONV', 'WIRELAYOUT', 'ERRCOND', 'LINKEXCH'], kani=[], level='proof',
         title='Failure propagation (the safety half: WHICH error a stopped handle reports; stop reason published before the channels close)',
         assumptions=[
             'DECIDED (necessary conditions, per function): (a) the event loops of the connection and session engines publish the stop reason BEFORE they close the channels through which handles, sessions and links learn of the stop (an order obligation at the close calls), and that reason is the peer\'s Close / End error, the peer\'s plain close / end, or the connection\'s fate, as derived from the loop\'s outcome (tails of ConnectionEngine::event_loop and SessionEngine::event_loop, rule R32); (b) the result handed to the ConnectionHandle / SessionHandle is the peer\'s error when the peer supplied one; (c) every link operation under contract that finds the channel to its session closed (send_transfer, send_flow, dispose, dispose_consecutive, send_detach, recv_inner) fails with SessionStopped(reason read from the published cell) -- at once, without waiting -- and with IllegalState only when no reason was recorded',
